@@ -216,7 +216,7 @@ def seq_at(I, v, i):
         return SInt(simp(to_z3(v.start) + iz * v.step))
     if isinstance(v, SItems):
         k = v.keys.at(iz)
-        return (wrap(v.kty, k), wrap(v.vty, z3.Select(v.val, k)))
+        return (wrap(v.kty, k), map_value(I, v, k))
     if isinstance(v, SMap):
         if v.keys is None:
             raise Unsupported("iteration over a dict whose key order is not tracked")
@@ -347,7 +347,7 @@ def get_item(I, v, idx):
                 I.raise_py(KeyError, idx)
         if v.vty.kind == "const":
             return v.vty.value
-        return wrap(v.vty, z3.Select(v.val, kz))
+        return map_value(I, v, kz)
     if isinstance(v, (SBytes, SSeq, bytes, bytearray, str, tuple, list, SRange)):
         if not isinstance(idx, (int, SInt)):
             I.raise_py(TypeError, "indices must be integers")
@@ -800,6 +800,13 @@ def _intz(v):
 
 
 def _identical(a, b):
+    if isinstance(a, S.SRef) or isinstance(b, S.SRef):
+        if a is None or b is None:
+            r = a if isinstance(a, S.SRef) else b
+            return SBool(simp(r.id == 0))
+        if isinstance(a, S.SRef) and isinstance(b, S.SRef):
+            return SBool(simp(a.id == b.id))
+        return False
     if isinstance(a, Sym) or isinstance(b, Sym):
         if isinstance(a, SObj) and isinstance(b, SObj):
             return a is b
@@ -817,6 +824,12 @@ def _identical(a, b):
 
 def equals(I, a, b):
     itp = _interp()
+    if isinstance(a, S.SRef) or isinstance(b, S.SRef):
+        x = a if isinstance(a, S.SRef) else b
+        f = I.class_lookup(x.cls, "__eq__")
+        if f is not None and not itp._is_object_slot(f):
+            return I.call(itp.BoundMethod(x, itp.unwrap_function(f), "__eq__"), [b if x is a else a], {})
+        return _identical(a, b)
     if a is None or b is None:
         if isinstance(a, SObj) or isinstance(b, SObj):
             return False
@@ -940,3 +953,97 @@ def contains(I, container, x):
 
 from .models2 import (BUILTIN_MODELS, as_lazy_forall, call, comprehension, del_attr, fstring, get_attr,  # noqa: E402,F401
                       set_attr, spec_call, with_manager, snapshot_locals, snapshot_value, real_init, be_bytes, be_int)
+
+
+def map_value(I, m, kz):
+    """the value stored under key kz; a stored heap reference is a valid (non-None) object"""
+    e = z3.Select(m.val, kz)
+    if m.vty.kind == "ref":
+        rng = z3.And(e >= 1, e < heap_limit(I))
+        I.path.assume(z3.Implies(z3.Select(m.has, kz), rng) if hasattr(m, "has") else rng)
+        r = wrap(m.vty, e)
+        return S.SRef(r.cls, r.id, getattr(m, "heap", None))
+    return wrap(m.vty, e)
+
+
+# ----------------------------------------------------------------------------- symbolic heap
+
+
+def _heap_alloc0(I):
+    p = I.path
+    if p.alloc0 is None:
+        p.alloc0 = p.fresh_int("alloc0")
+        p.assume(p.alloc0 >= 1)
+    return p.alloc0
+
+
+def heap_array(I, clsname, field, fty, heap=None):
+    key = (clsname, field)
+    init = I.path.__dict__.setdefault("heap_init", {})
+    if key not in init:
+        init[key] = z3.Const(I.path.fresh_name(f"heap_{clsname.rsplit('.', 1)[-1]}_{field}"), z3.ArraySort(S.IntS, S.sort_of(fty)))
+    if heap is not None:
+        # a snapshot taken before the field was first touched sees the initial array
+        return heap.get(key, init[key])
+    if key not in I.path.heap:
+        I.path.heap[key] = init[key]
+    return I.path.heap[key]
+
+
+def heap_limit(I):
+    a0 = _heap_alloc0(I)
+    return simp(a0 + I.path.nalloc)
+
+
+def heap_fresh_ref(I, cls, clsname, hint="r"):
+    """an input reference: some existing object 1 <= id < alloc0"""
+    p = I.path
+    a0 = _heap_alloc0(I)
+    rid = p.fresh_int(hint)
+    p.add_pool(rid)
+    p.assume(z3.And(rid >= 1, rid < a0))
+    return S.SRef(cls, rid)
+
+
+def heap_new(I, cls):
+    a0 = _heap_alloc0(I)
+    rid = simp(a0 + I.path.nalloc)
+    I.path.nalloc += 1
+    return S.SRef(cls, rid)
+
+
+def heap_get(I, ref, name):
+    itp = _interp()
+    clsname, decl = I.reg.heap_decl(ref.cls)
+    if decl is None or name not in decl:
+        return None
+    fty = decl[name]
+    arr = heap_array(I, clsname, name, fty, ref.heap)
+    e = z3.Select(arr, ref.id)
+    if fty.kind == "ref":
+        tcls = I.reg.resolve(fty.cls)
+        if fty.nullable:
+            if I.spec:
+                return S.SRef(tcls, e, ref.heap)
+            if I.path.branch(e == 0, note=f"{name}-is-None"):
+                return None
+        else:
+            I.path.assume(z3.And(e >= 1, e < heap_limit(I)))
+        return S.SRef(tcls, e, ref.heap)
+    return wrap(fty, e)
+
+
+def heap_set(I, ref, name, v):
+    clsname, decl = I.reg.heap_decl(ref.cls)
+    if decl is None or name not in decl:
+        raise Unsupported(f"attribute {name} of heap class {ref.cls.__name__} is not declared")
+    if ref.heap is not None:
+        raise Unsupported("store through a snapshot reference")
+    fty = decl[name]
+    arr = heap_array(I, clsname, name, fty)
+    val = z3.IntVal(0) if v is None else to_z3(v)
+    I.path.heap[(clsname, name)] = z3.Store(arr, ref.id, val)
+
+
+def heap_snapshot(I):
+    return dict(I.path.heap)
